@@ -33,7 +33,7 @@ IDENT_RE = re.compile(r"<([^#<>\s]+)#(\d+)@([^ >]+)")
 TOKEN_RE = re.compile(r"<([^#<>\s]+)#(\d+)@([^ >]+) u=([^ >]*) g=([^ >]*) n=([^ >]*) p=([^ >]*)>")
 
 STORE_KINDS = ("dict", "dictp", "fs", "fs2", "fsx", "fs+d", "dd", "ns", "ns+f", "ns+af")
-NAME_POOL = ("a", "b", "c", "sub/d")
+NAME_POOL = ("a", "sub/d", "b", "c")
 TENANTS = ("t1", "t2")
 
 
@@ -434,6 +434,10 @@ class World:
                             c.write(loc, src)
                         else:
                             c.write(loc, src, mtime if mtime is not None else 0.0)
+                            if hasattr(c, "fs") and not loc.startswith("d0:"):
+                                parts = loc.split("/")   # un-block a directory replaced by a file
+                                for i in range(3, len(parts)):
+                                    c.fs.files.pop("/".join(parts[:i]), None)
                             # the counterpart must resolve the name to the served source
                             for l2 in world.locs(lk.name):
                                 if l2 != loc:
@@ -839,6 +843,19 @@ def apply_mutation(w: World, m: dict) -> None:
         if w.store.content(loc) is not None:
             w.count("F5_delete")
         w.delete(loc)
+    elif m["op"] in ("blockdir", "unblockdir"):
+        # F11: the directory holding the source is replaced by a regular file (a botched deploy)
+        if not hasattr(w.store, "fs") or loc.startswith("d0:") or "/" not in name:
+            return
+        d = loc.rsplit("/", 1)[0]
+        if m["op"] == "blockdir":
+            w.store.fs.files[d] = ("not a directory", w.clock.now)
+            w.count("F11_dir_replaced_by_file")
+        else:
+            w.store.fs.files.pop(d, None)
+        w.store._note(loc, None)
+        w.wlog.append((w.store.write_seq, loc, None, None))
+        w.fault_w.append((w.store.write_seq, "delete"))
 
 
 def execute(plan: dict) -> dict:
@@ -875,7 +892,7 @@ def execute(plan: dict) -> dict:
                     t, twin = do_load(w, op)
                     if t is not None:
                         do_render(w, {**op, "id": f"{op['id']}r", "g_bound": op.get("g")}, t, twin)
-                elif k in ("write", "delete"):
+                elif k in ("write", "delete", "blockdir", "unblockdir"):
                     apply_mutation(w, op)
                 elif k == "unavail":
                     unavailable_next = True
@@ -1024,6 +1041,8 @@ def gen_plan(seed: int, tier: str) -> dict:
             li = min(placed[n]) if placed[n] and rng.random() < 0.8 else n_locs - 1
             if placed[n] and li < min(placed[n]):
                 li = min(placed[n])
+        if r < 0.05 and "/" in n and store.startswith("fs"):
+            return {"op": rng.choice(["blockdir", "blockdir", "unblockdir"]), "name": n, "li": li}
         if r < 0.22:
             placed[n].discard(li)
             return {"op": "delete", "name": n, "li": li}
@@ -1085,6 +1104,10 @@ def gen_plan(seed: int, tier: str) -> dict:
             ops.append({"op": "par", "id": nid(), "tasks": tasks})
     # bounded recovery: no faults, everything rewritten, every name loaded once
     ops.append({"op": "advance", "dt": 7})
+    for n in names:
+        if "/" in n and store.startswith("fs"):
+            for li2 in range(n_locs):
+                ops.append({"op": "unblockdir", "name": n, "li": li2})
     for n in names:
         li = min(placed[n]) if placed[n] else (0 if is_ns else n_locs - 1)
         if is_ns:
